@@ -315,13 +315,16 @@ func (e *Engine) applyContract(fr *Frame, st *State, fn *ssa.Function, c *Contra
 	penv := e.bindResults(env, c, fn.Signature, rv)
 	penv.cur = st
 	penv.old = pre
-	for _, q := range c.Ensures {
+	for _, q := range append(append([]*Clause(nil), c.Ensures...), c.AssumedEnsures...) {
 		t, err := e.tryEvalBool(penv, q.Expr)
 		if err != nil {
 			e.vc.note(fmt.Sprintf("postcondition %q of %s not usable here (%v); dropped from assumptions", q.Text, c.Key, err))
 			continue
 		}
 		e.vc.assume(st.pc, implies(preAll, t))
+	}
+	for _, q := range c.AssumedEnsures {
+		e.vc.usedExt["assumed (not established by its verification) of "+c.Key+": "+q.Text] = true
 	}
 	// vacuity guard: the assumed postcondition must not contradict the path
 	e.vc.cover(cname+":cover", st.pc)
